@@ -75,3 +75,35 @@ Example C01_simulation_nonvacuous :
   forallb (simple_atom (snd (collect p [] []))) p = true /\ (seq_size p <= 200)%nat /\
   exists evs, run_src 200 p w = SFinished evs /\ (3 <= length evs)%nat.
 Proof. split; [vm_compute; reflexivity|]. split; [vm_compute; repeat constructor|]. eexists. split; [vm_compute; reflexivity|]. cbn. repeat constructor. Qed.
+
+(* ---- extended to conditionals and blocks (Lang/Simulation2.v): every loop-free, call-free program ---- *)
+From Bardolph Require Import Lang.Simulation2.
+
+Theorem C01_loopfree_program_runs_as_its_source_says :
+  forall (p : script) (w : world) (fuel : nat) (evs : list event),
+    SimpleL (snd (collect p [] [])) p -> (sizeL p <= fuel)%nat ->
+    run_src fuel p w = SFinished evs ->
+    exists k, run_program k (compile p) w = Finished evs.
+Proof. exact loopfree_program_runs_as_its_source_says. Qed.
+Print Assumptions C01_loopfree_program_runs_as_its_source_says.
+
+(* if / else choose by the truth of their condition, statement by statement, anywhere in an image *)
+Theorem C01_conditional_simulation :
+  forall rt mt st, Simple mt st ->
+  forall im ss s sig ss' fuel, sim ss s -> code_at im (m_pc s) (c_stmt rt mt false None st) -> (size st <= fuel)%nat ->
+  Sem.exec rt mt fuel false ss st = ROk sig ss' -> sig = SigNormal /\ simulates im ss s ss' (c_stmt rt mt false None st).
+Proof. intros rt mt. exact (proj1 (simple_simulation rt mt)). Qed.
+Print Assumptions C01_conditional_simulation.
+
+Example C01_loopfree_nonvacuous :
+  let p := [SAssign "x" (RLit (LInt 3));
+            SIf (RExpr (EBin BLt (EVar "x") (ELit (LInt 5))))
+                (SBlock [SReg R_HUE (RVar "x"); SIf (RVar "x") (SOn OpAll) (Some (SOff OpAll))])
+                (Some (SPrint (Some (RLit (LInt 0)))));
+            SIf (RLit (LInt 0)) (SPrintln (Some (RVar "x"))) None; SSet OpAll] in
+  let w := [mkLight "a" "g" "l" KPlain [0; 0; 0; 0]] in
+  SimpleL (snd (collect p [] [])) p /\ (sizeL p <= 200)%nat /\ exists evs, run_src 200 p w = SFinished evs /\ (2 <= length evs)%nat.
+Proof.
+  split; [apply (simple_list_sound _ 10); vm_compute; reflexivity|]. split; [vm_compute; repeat constructor|].
+  eexists. split; [vm_compute; reflexivity|]. cbn. repeat constructor.
+Qed.
